@@ -135,6 +135,12 @@ func (c *Ctx) deepLeaves(fn *ssa.Function, isRead bool) (out []leaf, ok bool, wh
 		if id == "" {
 			e.what = "type:" + ir.TypeString(t)
 			id = "value"
+			// a local of a named struct type: its leaves are named by the type
+			if _, isStruct := t.Underlying().(*types.Struct); isStruct {
+				if tn := ir.NamedTypeID(t); tn != "" {
+					id = tn
+				}
+			}
 		}
 		addDatum(id, t, order, e)
 	}
@@ -308,6 +314,9 @@ func (c *Ctx) deepLeaves(fn *ssa.Function, isRead bool) (out []leaf, ok bool, wh
 			}
 		case id == "io.LimitReader" && isRead && si == 0:
 			boundedRun(dval{call, di.fr}, call, d.affine(args[1], di.fr, nil, 0))
+		case isRead && call.Call.IsInvoke() && call.Call.Method.Name() == "Read" && si == 0:
+			// a plain Read on the stream (a scan loop): a run of bytes of unknown length
+			out = append(out, leaf{id: firstNonEmpty(d.fieldSink(d.objectOf(call.Call.Args[0], di.fr), 0), "bytes"), width: -1, order: "-", src: &codecEntry{call: call, what: "bytes", width: -1, order: "-"}})
 		case id == "builtin.len" || id == "builtin.cap" || strings.HasSuffix(id, ".Len") || strings.HasSuffix(id, ".Bytes") || strings.HasSuffix(id, ".String"):
 			continue
 		case id == "bytes.Buffer.WriteByte" && !isRead:
